@@ -637,7 +637,7 @@ def apply_contract(self: Interp, key, selfv, args, kwargs, st: State, node):
             res = Opaque(z3.Const(fresh_name("cm"), ObjS), "contextmanager")
             res._cm = CMToken(key, frame, dict(env), c)
         st.env["result"] = res
-        for e in c.ensures + c.ghost_ensures:
+        for e in [x for x in c.ensures if self.clause_on(x)] + c.ghost_ensures:
             st.assume(self.contract_truth(e, st))
     outs.append((st, res, None))
     return outs
